@@ -453,6 +453,9 @@ func (e *exec) recvAvailable(max int) int {
 		e.deliveredLocked(it, tag, true)
 		e.mu.Unlock()
 		n++
+		if e.s.Strict {
+			e.wait()
+		}
 	}
 	return n
 }
